@@ -6,6 +6,7 @@ import (
 	"io"
 	"os"
 	"regexp"
+	"strconv"
 	"strings"
 	"unicode/utf8"
 
@@ -52,6 +53,11 @@ type c07Scn struct {
 	Warm      bool       `json:"warm,omitempty"`
 	WarmRS    core.Bytes `json:"warm_rs,omitempty"`
 	WarmReset bool       `json:"warm_reset,omitempty"`
+	// SwitchAt > 0 (mode main, RS a regex): the program assigns RS2 to RS while record SwitchAt is
+	// the current one; the scanner is alive, the rest of the stream must be split by RS2
+	// ("RS change recompiles separator seen by an active regex splitter")
+	SwitchAt int        `json:"switch_at,omitempty"`
+	RS2      core.Bytes `json:"rs2,omitempty"`
 }
 
 type c07Rec struct {
@@ -94,6 +100,13 @@ var c07progs = map[string]string{
 	for (;;) { r1 = (getline a < "f0"); if (r1 > 0) obs(1, 0, a, RT); r2 = (getline b < "f1"); if (r2 > 0) obs(2, 0, b, RT); if (r1 <= 0 && r2 <= 0) break }
 	fin(NR, (r1 < 0 || r2 < 0) ? -1 : 0) }`,
 }
+
+const c07switchProg = `{ obs(NR, FNR, $0, RT) } NR == K { RS = RS2 } END { fin(NR, 0) }`
+
+// separators of the RS-switch scenarios: regexes that cannot match the empty string and have no
+// alternative that is a proper prefix of a longer match needing more input (open finding F-C07-1R)
+var c07switchRS = []string{";+", "ab+", "xy", "[;,]+", "\n\n+", "--+", "é", "a+b", "=="}
+var c07switchRS2 = []string{";+", "ab+", "xy", "[;,]+", "\n\n+", "--+", "é", "a+b", "==", ",", ";", "x"}
 
 type c07Engine struct{}
 
@@ -311,6 +324,27 @@ func (c07Engine) Gen(r *core.Rand, tier string, i int) any {
 	}
 	// read mode and source
 	m := r.Intn(100)
+	if i%10 == 7 && (sc.Enum == "allchunk" || sc.Enum == "splits" || kind >= 60) {
+		// RS is assigned while the scanner is alive
+		sc.Warm, sc.Mode, sc.Where = false, "main", core.Pick(r, []string{"stdin", "stdin", "file"})
+		sc.RS = core.Bytes(core.Pick(r, c07switchRS))
+		sc.RS2 = core.Bytes(core.Pick(r, c07switchRS2))
+		sc.SwitchAt = core.Pick(r, []int{1, 1, 1, 2, 3})
+		n := 24
+		if sc.Enum == "allchunk" {
+			n = enumMax
+		}
+		var data []byte
+		for len(data) < n {
+			data = append(data, c07GenInput(r, core.Pick(r, []core.Bytes{sc.RS, sc.RS2}), 5)...)
+		}
+		data = data[:n]
+		for !utf8.Valid(data) && len(data) > 0 { // never cut a multi-byte character
+			data = data[:len(data)-1]
+		}
+		sc.Srcs = []c07Src{{Data: data, D: genDelivery(r, len(data))}}
+		return sc
+	}
 	switch {
 	case m < 50:
 		sc.Mode, sc.Where = "main", "stdin"
@@ -543,6 +577,9 @@ func c07Exec(sc *c07Scn, ds []core.Delivery, log *core.Log) *c07Obs {
 	if !ok {
 		core.Fatal("C07: unknown mode %q", sc.Mode)
 	}
+	if sc.SwitchAt > 0 {
+		src = c07switchProg
+	}
 	prog, err := parse("c07", src, c07funcs)
 	if err != nil {
 		core.Fatal("C07: parse: %v", err)
@@ -550,6 +587,9 @@ func c07Exec(sc *c07Scn, ds []core.Delivery, log *core.Log) *c07Obs {
 	cfg := &interp.Config{
 		Stdin: nullFile(), Output: io.Discard, Error: io.Discard, Funcs: c07funcs, Environ: []string{},
 		Vars: []string{"RS", string(sc.RS)},
+	}
+	if sc.SwitchAt > 0 {
+		cfg.Vars = append(cfg.Vars, "K", strconv.Itoa(sc.SwitchAt), "RS2", string(sc.RS2))
 	}
 	var fs *core.SimFS
 	needFS := sc.Where == "file" || sc.Where == "files2" || sc.Mode == "getline-file" || sc.Mode == "getline-cmd" || sc.Mode == "getline-two"
@@ -821,6 +861,11 @@ func c07Check(sc *c07Scn, datas [][]byte, ds []core.Delivery, obs, base *c07Obs,
 		}
 		return f
 	}
+	if sc.SwitchAt > 0 {
+		return c07CheckSwitch(sc, datas[0], obs, base, func() string {
+			return desc() + fmt.Sprintf(" RS2=%q assigned at record %d", string(sc.RS2), sc.SwitchAt)
+		}, out)
+	}
 	hasErr := false
 	for _, d := range ds {
 		hasErr = hasErr || d.HasErr
@@ -956,6 +1001,64 @@ func c07Check(sc *c07Scn, datas [][]byte, ds []core.Delivery, obs, base *c07Obs,
 }
 
 // c07CheckErr: oracle 4, injected read error (separate batch from the fault-free runs).
+// c07CheckSwitch: RS is a regex and the program assigns another separator while record K is
+// current. The reference splits the first K records by RS and everything after them by RS2
+// (each time the leftmost-longest non-empty match in the rest of the input); every delivery
+// schedule must give that sequence, and records followed by their RT reproduce the input.
+func c07CheckSwitch(sc *c07Scn, data []byte, obs, base *c07Obs, desc func() string, out *core.Outcome) *core.Failure {
+	if obs.Res.Err != nil {
+		return &core.Failure{Oracle: "unexpected-error", Detail: desc() + " error: " + obs.Res.Err.Error()}
+	}
+	re1, err1 := c07Regexp(string(sc.RS))
+	re2, err2 := c07Regexp(string(sc.RS2))
+	if err1 != nil || err2 != nil {
+		core.Fatal("C07: switch separators must compile: %v %v", err1, err2)
+	}
+	var want []c07Rec
+	pos := 0
+	for n := 1; pos < len(data); n++ {
+		re := re1
+		if n > sc.SwitchAt {
+			re = re2
+		}
+		rest := data[pos:]
+		loc := re.FindIndex(rest)
+		for loc != nil && loc[0] == loc[1] {
+			core.Fatal("C07: switch separator %q matches the empty string", re.String())
+		}
+		if loc == nil {
+			want = append(want, c07Rec{NR: n, FNR: n, Rec: string(rest)})
+			pos = len(data)
+			break
+		}
+		want = append(want, c07Rec{NR: n, FNR: n, Rec: string(rest[:loc[0]]), RT: string(rest[loc[0]:loc[1]])})
+		pos += loc[1]
+	}
+	out.Probe("rs_switch_runs", 1)
+	if len(want) > sc.SwitchAt {
+		out.Probe("rs_switch_took_effect_mid_stream", 1)
+	}
+	got := recsString(obs.Recs, true, true)
+	if b := recsString(base.Recs, true, true); got != b {
+		return &core.Failure{Oracle: "delivery-independence", Detail: desc() + ": records " + clip(got, 300) + ", one-shot delivery gives " + clip(b, 300)}
+	}
+	if w := recsString(want, true, true); got != w {
+		return &core.Failure{Oracle: "lossless-records", Detail: desc() + ": records " + clip(got, 300) + ", the reference split gives " + clip(w, 300)}
+	}
+	var sum strings.Builder
+	for _, r := range obs.Recs {
+		sum.WriteString(r.Rec)
+		sum.WriteString(r.RT)
+	}
+	if sum.String() != string(data) {
+		return &core.Failure{Oracle: "lossless-RT", Detail: desc() + ": records and RTs concatenate to " + clip(sum.String(), 200)}
+	}
+	if !obs.Fin || obs.FinNR != len(want) {
+		return &core.Failure{Oracle: "nr-count", Detail: desc() + fmt.Sprintf(": END saw NR=%d (ran=%v), %d records expected", obs.FinNR, obs.Fin, len(want))}
+	}
+	return nil
+}
+
 func c07CheckErr(sc *c07Scn, datas [][]byte, ds []core.Delivery, obs *c07Obs, refs []*c07Ref, desc func() string, usesNR bool) *core.Failure {
 	fired := obs.Stats.Errors > 0
 	if !fired {
